@@ -150,21 +150,33 @@ Print Assumptions exactly_one_stop_any_context.
    Shutdown — also when the reload fails (retiring service's Shutdown or new service's Start returns an
    error, the configuration cannot be re-resolved) and when the provider fails while the collector
    stops.  Hence exactly_once and the ordering theorems hold for every generation. *)
-Theorem reload_generations_events : forall pf gens,
-  exists k, k <= length gens /\ map fst (collector_run_reload pf gens) = map gen_log (firstn k gens).
+Theorem reload_generations_events : forall t pf gens,
+  exists k, k <= length gens /\ map fst (collector_run_reload t pf gens) = map gen_log (firstn k gens).
 Proof. exact l_reload_generations_events. Qed.
 Print Assumptions reload_generations_events.
 
 (* with a well-behaved provider the reported errors, too, are exactly those of the life times *)
-Theorem reload_generations : forall gens, Forall (fun n => gn_close_fails n = false) gens ->
-  exists k, k <= length gens /\ collector_run_reload false gens = map gen_run (firstn k gens).
+Theorem reload_generations : forall t gens, Forall (fun n => gn_close_fails n = false) gens ->
+  exists k, k <= length gens /\ collector_run_reload t false gens = map gen_run (firstn k gens).
 Proof. exact l_reload_generations. Qed.
 Print Assumptions reload_generations.
 
-Theorem reload_first_generation : forall pf g0 rest,
-  exists tl, map fst (collector_run_reload pf (g0 :: rest)) = gen_log g0 :: tl.
+Theorem reload_first_generation : forall t pf g0 rest,
+  exists tl, map fst (collector_run_reload t pf (g0 :: rest)) = gen_log g0 :: tl.
 Proof. exact l_reload_first. Qed.
 Print Assumptions reload_first_generation.
+
+(* every way Run leaves its control loop — a config-watch ERROR, an asynchronous error, a
+   termination signal, Collector.Shutdown(), a cancelled context — shuts the running service down:
+   the trigger changes nothing (so all of the above holds for each of them) *)
+Theorem every_trigger_shuts_down : forall t t' pf gens, collector_run_reload t pf gens = collector_run_reload t' pf gens.
+Proof. exact l_every_trigger_shuts_down. Qed.
+Print Assumptions every_trigger_shuts_down.
+
+Theorem last_generation_shut_down : forall t pf cur ls, gen_start cur = (ls, []) ->
+  map fst (reload_loop t pf cur ls []) = [ls ++ fst (gen_shutdown cur)].
+Proof. exact l_last_generation_shut_down. Qed.
+Print Assumptions last_generation_shut_down.
 
 (* ---- the topological sort as an algorithm (computeOrder, topo.Sort in StartAll / ShutdownAll / Build) ---
    [topo_sort ns es pref]: pref = the iteration order the implementation happens to use; ANY pref. *)
